@@ -182,6 +182,34 @@ def native_build(u, harness, hdefs):
         return real, tx
 
 
+def sanitizer_replay(u, harness, hdefs, cex_path):
+    """replay a counter-example against the REAL C++ unit built with ASan+UBSan; returns (confirmed, report)"""
+    d = u['dir']
+    k = key_of(harness, hdefs, 'asan')
+    exe = os.path.join(d, 'nat_asan_' + k)
+    san = ['-fsanitize=address,undefined', '-fno-sanitize-recover=undefined', '-g', '-O1', '-fno-omit-frame-pointer']
+    with _lock:
+        lk = _unit_locks.setdefault(d + 'asan', threading.Lock())
+    with lk:
+        ro = os.path.join(d, 'real_asan.o')
+        if not os.path.exists(ro):
+            rc, o, e, w, _ = sh(['g++'] + GXX_FLAGS + san + dflags(u['udefs']) + ['-I' + os.path.join(REPO, 'include'), '-I' + UNITS,
+                                                                                '-c', os.path.join(UNITS, u['unit']), '-o', ro], timeout=900)
+            if rc != 0:
+                raise BuildError('asan build of unit failed: ' + e[-1500:])
+        common = ['-w', '-ffp-contract=off', '-I' + RT, '-I' + d, '-I' + HARN, '-I' + tables_dir()] + dflags(hdefs) + san
+        rc, o, e, w, _ = sh(['gcc'] + common + ['-c', os.path.join(HARN, harness), '-o', exe + '_h.o'], timeout=300)
+        rc2, o2, e2, w, _ = sh(['gcc'] + common + ['-c', os.path.join(RT, 'fsv_native.c'), '-o', exe + '_n.o'], timeout=300)
+        rc3, o3, e3, w, _ = sh(['g++'] + san + [exe + '_h.o', exe + '_n.o', ro, '-lm', '-lpthread', '-o', exe], timeout=300)
+        if rc or rc2 or rc3:
+            raise BuildError('asan link failed: ' + (e + e2 + e3)[-1500:])
+    env = dict(os.environ, ASAN_OPTIONS='detect_leaks=0:abort_on_error=0', UBSAN_OPTIONS='print_stacktrace=1')
+    rc, o, e, w, _ = sh([exe, 'replay', cex_path], timeout=120, env=env)
+    rep = (e or '')
+    confirmed = rc != 0 and ('AddressSanitizer' in rep or 'runtime error' in rep)
+    return confirmed, rep[:3000]
+
+
 def differential(u, harness, hdefs, count, seed):
     real, tx = native_build(u, harness, hdefs)
     rc1, o1, e1, w1, _ = sh([real, 'random', str(count), str(seed)], timeout=600)
@@ -490,8 +518,20 @@ def run_query(q, prop, seed, outdir):
     r['cex_description'] = f['description']
     r['cex_inputs'] = {k: ('%x' % v) for k, v in sorted(f['inputs'].items())}
     if q.want == 'safety':
-        r['verdict'] = 'CEX'
-        r['replay'] = 'safety failures are replayed by the C08 check under sanitizers'
+        r['safety_failures'] = [dict(description=x['description'], function=x['loc'].get('function'), line=x['loc'].get('line')) for x in deciding][:10]
+        try:
+            ok, rep = sanitizer_replay(u, q.harness, q.hdefs, cex)
+        except BuildError as ex:
+            r.update(verdict='ERROR', error=str(ex)[-1500:])
+            return r
+        r['replay_out'] = rep[-2500:]
+        r['replay_rc'] = 1 if ok else 0
+        if ok:
+            r['verdict'] = 'CEX'
+            r['in_known_class'] = bool(q.kf_marker) and (q.kf_marker in rep)
+        else:
+            r.update(verdict='ERROR', error='cbmc reports a memory-safety failure (%s) that ASan/UBSan do not confirm on the real code: model imprecision or an '
+                     'undefined-behaviour class no sanitizer sees; not reported as a violation' % deciding[0]['description'])
         return r
     rc, o = replay(u, q.harness, q.hdefs, cex)
     r['replay_rc'] = rc
